@@ -1,6 +1,7 @@
 #!/usr/bin/env python3
 """Regenerates MANIFEST.json from the table below (keep the table current)."""
 import json
+import os
 from pathlib import Path
 
 V = Path(__file__).resolve().parent
@@ -33,11 +34,84 @@ CLAIMED.update({
     },
 })
 
+CANDIDATES = {
+    "C01": {
+        "text": "K level with the REAL quantised coefficients of enumerated geometries: for all contents (full, or 3 components at symbolic positions over a fixed background for long windows) the real horizontal and vertical pass output differs from the independent ideal resampling (reference/ideal.py: pixel-centre mapping, documented kernels, adaptive scale, normalisation; weights scaled by 2^24) by at most half a unit plus the fixed-point quantisation allowance n*2^-(p+1)*max. Round-to-nearest of a pass w.r.t. its own coefficients is C02's specification; pass order, clamping between passes and SuperSampling's two-step structure are decided at P level (C05, C12).",
+        "note": "Geometries enumerated (3 quick / ~30 thorough, source <= 12 per side, 7 built-in filters, integer/fractional/edge-flush crops); windows whose sample centre sits on a kernel discontinuity are skipped and listed in the evidence; I32/F32 arithmetic outside; the float stage is executed natively, a change to it shows up as different constants in the next run.",
+        "design": "5/C01",
+    },
+    "C03": {
+        "text": "Assume-guarantee with all Kani default checks on (pointer validity against exact array extents, arithmetic overflow, unreachable, unwrap, debug_assert): (1) validation never panics and accepts nothing outside (C04 harnesses); (2) the real float stage's windows satisfy the interface invariant the unsafe kernels trust (start+size <= source, coefficient range, precision in the dispatch table, sum|c| < 4*2^p) on 30+ geometries incl. edge-flush/1-pixel/denormal-width crops - concrete evaluation reported in evidence; (3) every integer pixel type x {portable, SSE4.1, AVX2} horizontal (5 rows, offset 1) and vertical (chunked widths) kernel under that invariant with buffers ending exactly at the last pixel; (4) nearest and convolution through resize_typed on sub-pixel boxes flush with the far edges, 1-pixel sources, strided source and destination views.",
+        "note": "Contents of (3) are 2 components at symbolic positions over a fixed background (memory safety of these kernels does not depend on pixel values, only on indices); geometry enumerated; custom filters with 2 <= sum|w| < 4 are NOT covered (by reading: they can trip the debug_assert of the 8-bit clip table in debug builds); allocation failure out of scope.",
+        "design": "5/C03",
+    },
+    "C05": {
+        "text": "P level: Resizer::resize_typed with symbolic source AND symbolic old destination buffer; after Ok the destination rectangle equals the composed specification of the two passes (which never reads the old destination, so a stale pixel is a counterexample) and every component outside the rectangle - surroundings of a mutable cropped view, spare capacity of an over-long buffer - keeps its old value. Instances: two-pass U8 into a cropped view, two-pass U16 exact, horizontal-only with crop top > 0 into an over-long buffer, vertical-only SSE4.1 into a cropped view, horizontal-only SSE4.1 5 rows into a cropped view.",
+        "note": "Sizes <= 6; real window bounds, synthetic power-of-two weights (arithmetic is decided at K level); scratch buffers of the Resizer have symbolic content; alpha operations and conversions are covered by C06/C17 whole-row checks; thread counts outside.",
+        "design": "5/C05",
+    },
+    "C06": {
+        "text": "Public MulDiv typed entry points (in-place and two-image) on a 1xK row; one pixel at an enumerated lane position carries symbolic (colour.., alpha): U8x2/U8x4 all 65536 pairs, U16x2/U16x4 multiply all 2^32 pairs, per back-end {portable, SSE4.1, AVX2}: multiply == round(c*a/max) exactly; divide is one of the two neighbours of c*max/a, saturated at max, alpha 0 -> 0; alpha component unchanged; fixed background pixels also checked; the 7 pixel types without alpha are rejected and left untouched. 16-bit divide on the portable path: alpha sliced ([0,255] whole, 16-wide slices elsewhere: 3 quick, 256 seeded thorough).",
+        "note": "Known findings (listed, still reported as KNOWN-FINDING): 16-bit SIMD divide does not saturate (U16x2) / mishandles quotients >= 2^31 (U16x2, U16x4). The portable alpha=1 overflow was fixed (0f2e647). Float alpha types outside; lane positions: first, last of chunk, remainder (all in thorough).",
+        "design": "5/C06",
+    },
+    "C07": {
+        "text": "Relational P level: two runs of resize_typed (alpha on) on sources that differ only in the colour of pixels with alpha 0 give identical destinations, with a crop strictly inside the row so the filter window reaches pixels outside the crop box; destination alpha 0 => colour 0; the alpha channel equals the plain resample of the alpha plane; a fully opaque source gives the same result as use_alpha(false).",
+        "note": "U8x2/U8x4/U16x2 (U16x4 and SIMD in thorough); sizes <= 4; real window bounds with power-of-two weights; F32 alpha types outside.",
+        "design": "5/C07",
+    },
+    "C08": {
+        "text": "Only the band-count arithmetic: calculate_max_{h,v}_parts_number for all u32 x u32 sizes never panics and never exceeds the extent (found and fixed the u32 overflow for sides >= 65536). The tiling facts the threading macros rely on are decided under C14.",
+        "note": "NOT decided: the real threading.rs glue (which source rows go with which destination band) and rayon interleavings - the smallest images that actually split have >= 32x32 or 128x2 pixels and did not finish with a sequential rayon shim; Kani has no concurrency. A wrong band pairing would be missed.",
+        "design": "5/C08",
+    },
+    "C09": {
+        "text": "One inductive step instead of call histories: a Resizer with arbitrary scratch state (three byte vectors of symbolic content, exact and over-sized) and a fresh Resizer perform the same resize; results identical. Alpha path with a crop away from the edges and a x4 vertical down-scale (windows leave the crop), two-pass U8 and U16. Every other P-level harness also runs on symbolic scratch.",
+        "note": "Any history / clone / reset only produces some such state (buffers are only grown and written); vector alignment is whatever Kani models for Vec<u8>; sizes <= 10.",
+        "design": "5/C09",
+    },
+    "C11": {
+        "text": "P level ResizeAlg::Nearest, all contents: destination pixel (x,y) is a bit-exact copy of source pixel (ix[x], iy[y]) with indices from reference/ideal.py in exact rational arithmetic (either neighbour within 2^-40 of an integer), index inside the source; sub-pixel crop boxes flush with the far corner; cropped / over-long destinations; outside of the rectangle unchanged.",
+        "note": "Geometry enumerated (4 quick, 18 thorough with seeded sizes <= 7 and all 13 pixel types).",
+        "design": "5/C11",
+    },
+    "C12": {
+        "text": "P level: destination size == integer crop size => bit-exact copy for Convolution / Interpolation / SuperSampling / Nearest, alpha on/off; one matching dimension => only the other pass's coefficients are consumed (injection-queue check) and the result is the 1-D specification; SuperSampling with one matching dimension; SuperSampling whose nearest intermediate has exactly the destination size (found and fixed the stale-destination defect).",
+        "note": "Sizes <= 6; 5 pixel types quick, all 13 thorough.",
+        "design": "5/C12",
+    },
+    "C13": {
+        "text": "Same logical operation with the source as cropped view (interior / flush), nested crop or owned image and the destination exact / over-long / cropped: destination equals the specification of the logical region; plus a relational harness: Nearest from a cropped view and from an owned copy of the same region (destination centre exactly on a source row boundary) give identical pixels.",
+        "note": "Placement enumerated; dynamic (Image / resize) entry points are only exercised in C17's dispatch harnesses; single-pass geometries (two-pass glue is C05).",
+        "design": "5/C13",
+    },
+    "C14": {
+        "text": "split_by_height/width(_mut): (start,size) symbolic incl. invalid values, number of parts enumerated; None iff invalid; otherwise exactly `parts` views, in order, sizes differing by <= 1, exposing exactly the tagged pixels of their band; mutable parts: a distinct value is written through each part and the whole parent buffer is compared with the exact owner map (so overlap or a write outside the band is a counterexample). Containers: TypedImageRef, TypedImage, TypedCroppedImage(Mut) interior / flush / nested.",
+        "note": "View sizes <= 4x5 (the code has no size-dependent branch besides div/mod - argued, not proved); pointer checks off for these harnesses (functional tag check instead).",
+        "design": "5/C14",
+    },
+    "C15": {
+        "text": "CropBox::fit_src_into_dst_size with all four sizes symbolic in 1..=5 (thorough 1..=7) and centering any non-NaN f64 pair: positive size, non-negative origin, inside the source exactly as CroppedSrcImageView::crop evaluates it, full span in one dimension, margins = removed size x clamped centering, aspect ratio; zero sizes -> whole image.",
+        "note": "Everything above 5 (7) is OUTSIDE the claim - i.e. almost all of the 1..65535 range, including the double-rounding cases (the smallest overshooting pair of fl(fl(w/h)*h) is 7x25).",
+        "design": "5/C15",
+    },
+    "C18": {
+        "text": "K level with the real coefficients of Box/Bilinear/Hamming/Gaussian geometries (verified non-negative at generation time): for all contents min(window) <= out <= max(window); monotonicity: out(a) <= out(max(a,c)) componentwise, on portable and SIMD back-ends.",
+        "note": "Geometries enumerated; long windows use 3 symbolic components over a fixed background; float/I32 types outside.",
+        "design": "5/C18",
+    },
+}
+
+ENABLED = set(os.environ.get("VERIF_ENABLE", "").split(",")) if False else set(open(V / "enabled.txt").read().split())
+for k in sorted(ENABLED):
+    if k in CANDIDATES:
+        CLAIMED[k] = CANDIDATES[k]
+
 NA = {
     "C16": "table entries are powf values (transcendental; CBMC over-approximates powf, SMT has no theory) and table construction needs 2x(2*256+2*65536) closure calls, beyond any unwinding bound that finishes; see DESIGN.md section 6",
 }
 
-PENDING = "check not built yet in this revision of /verif (planned, see DESIGN.md section 8)"
+PENDING = "harnesses exist in /verif/kh but the check is not yet stable on the unchanged tree (some obligation inconclusive within the caps); not claimed in this revision"
 
 props = [json.loads(l) for l in (V / "properties.jsonl").read_text().splitlines() if l.strip()]
 
